@@ -221,9 +221,12 @@ package modfile
 //@   pure
 //@   ensures !MustQuote(s) ==> result == s
 //@   props C15 C08 C16
+//@ # a version is accepted for a path exactly when it is canonical and its major version matches the path's suffix
+//@ # (when the path splits at all)
 //@ func checkCanonicalVersion
 //@   allocates
-//@   trusted "delegates to module.SplitPathVersion/CanonicalVersion/CheckPathMajor (C06/C04); only its frame (no writes) is used here"
+//@   call PathMajorPrefix assumes "a non-empty suffix returned by SplitPathVersion has the shape PathMajorPrefix accepts (/vN, .vN or .vN-unstable with vN its own semver major); the connecting lemma over semver.Major is not proved here" arg_pathMajor == "" || ((arg_pathMajor[0] == '/' || arg_pathMajor[0] == '.') && PMNORM(arg_pathMajor)[1:] == semver.Major(PMNORM(arg_pathMajor)[1:]))
+//@   ensures [C08, C15] canonical_and_matching_major: (result == nil) == (vers != "" && vers == module.CanonicalVersion(vers) && (module.SplitPathVersion_r2(path) ==> MAJORMATCH(vers, module.SplitPathVersion_r1(path))))
 //@   props C15 C08 C16
 
 //@ # ---------- AddRetract records the retraction in the typed list (C15: later operations see it) ----------
@@ -270,12 +273,60 @@ package modfile
 //@   props C15 C08
 
 //@ # ---------- go.work use directives (C16) ----------
-//@ func (*WorkFile).SortBlocks
-//@   trusted "sort.SliceStable over syntax blocks plus removeDups on replace directives; does not touch the use list"
+//@ # lexical order by tokens: the first differing token decides, a proper prefix comes first
+//@ spec macro LEXLESS(li *Line, lj *Line) bool =
+//@     (exists k int :: 0 <= k && k < len(li.Token) && k < len(lj.Token) && li.Token[k] < lj.Token[k] && (forall m int {li.Token[m]} :: 0 <= m && m < k ==> li.Token[m] == lj.Token[m]))
+//@     || (len(li.Token) < len(lj.Token) && (forall m int {li.Token[m]} :: 0 <= m && m < len(li.Token) ==> li.Token[m] == lj.Token[m]))
+//@ func lineLess
+//@   requires li != nil && lj != nil
+//@   ensures [C16] lexical_by_tokens: result == LEXLESS(li, lj)
+//@   loop 0:
+//@     invariant 0 <= k && k <= len(li.Token) && k <= len(lj.Token)
+//@     invariant forall m int {li.Token[m]} :: 0 <= m && m < k ==> li.Token[m] == lj.Token[m]
+//@     decreases len(li.Token) - k
+//@   uses str_lt_asym str_lt_total
+//@   props C16
+//@ # excludes: by module path, then by semantic version (lines that are not path + version fall back to lexical order)
+//@ func lineExcludeLess
+//@   requires li != nil && lj != nil
+//@   ensures [C16] excludes_by_path_then_semver: result == (if len(li.Token) != 2 || len(lj.Token) != 2 then LEXLESS(li, lj) else if li.Token[0] != lj.Token[0] then li.Token[0] < lj.Token[0] else semver.Compare(li.Token[1], lj.Token[1]) < 0)
+//@   props C16
+//@ # retractions: descending by low version, then descending by high version; a single version is the interval [v, v],
+//@ # a line of any other shape counts as the empty interval
+//@ spec macro RLOW(l *Line) string = if len(l.Token) == 1 then l.Token[0] else if len(l.Token) == 5 && l.Token[0] == "[" && l.Token[2] == "," && l.Token[4] == "]" then l.Token[1] else ""
+//@ spec macro RHIGH(l *Line) string = if len(l.Token) == 1 then l.Token[0] else if len(l.Token) == 5 && l.Token[0] == "[" && l.Token[2] == "," && l.Token[4] == "]" then l.Token[3] else ""
+//@ func lineRetractLess$1
+//@   requires l != nil
+//@   ensures result.Low == RLOW(l) && result.High == RHIGH(l)
+//@   props C16
+//@ func lineRetractLess
+//@   requires li != nil && lj != nil
+//@   ensures [C16] retractions_descending: result == (if semver.Compare(RLOW(li), RLOW(lj)) != 0 then semver.Compare(RLOW(li), RLOW(lj)) > 0 else semver.Compare(RHIGH(li), RHIGH(lj)) > 0)
+//@   props C16
+//@ func (*WorkFile).removeDups
+//@   trusted "duplicate replace directives are dropped from the typed list and the syntax tree (the worker removeDups); here only its frame"
 //@   requires f != nil
 //@   modifies WorkFile.Replace, []*Replace, Replace.Old, Replace.New, Replace.Syntax, module.Version.Path, module.Version.Version
 //@   modifies FileSyntax.Stmt, []Expr, LineBlock.Line, []*Line, Line.Token, Line.InBlock, Comments.Suffix, ghost.SORTED
 //@   allocates
+//@   ensures f.Syntax == old(f.Syntax)
+//@   ensures forall k int :: 0 <= k && k < len(f.Syntax.Stmt) ==> (ISBLOCK(f.Syntax.Stmt[k]) ==> ifaceptr(f.Syntax.Stmt[k]) != 0)
+//@   props C16 C15
+//@ # the comparator handed to the sort compares the two lines of the block it is asked about, lexically by tokens
+//@ func (*WorkFile).SortBlocks$1
+//@   requires block != nil && 0 <= i && i < len(block.Line) && 0 <= j && j < len(block.Line) && block.Line[i] != nil && block.Line[j] != nil
+//@   allocates
+//@   ensures [C16] workspace_blocks_lexical: result == LEXLESS(block.Line[i], block.Line[j])
+//@   props C16
+//@ func (*WorkFile).SortBlocks
+//@   requires f != nil && f.Syntax != nil
+//@   modifies WorkFile.Replace, []*Replace, Replace.Old, Replace.New, Replace.Syntax, module.Version.Path, module.Version.Version
+//@   modifies FileSyntax.Stmt, []Expr, LineBlock.Line, []*Line, Line.Token, Line.InBlock, Comments.Suffix, ghost.SORTED
+//@   allocates
+//@   loop 0:
+//@     invariant 0 - 1 <= @idx && @idx < len(f.Syntax.Stmt) && f.Syntax != nil && f.Syntax.Stmt == pre(f.Syntax.Stmt)
+//@     invariant forall k int :: 0 <= k && k < len(f.Syntax.Stmt) ==> (ISBLOCK(f.Syntax.Stmt[k]) ==> ifaceptr(f.Syntax.Stmt[k]) != 0)
+//@     decreases len(f.Syntax.Stmt) - @idx
 //@   props C16 C15
 
 //@ func (*WorkFile).AddNewUse
